@@ -29,6 +29,9 @@ def vf_jobs(tier):
         J.append(Job('page-bisect-%d'%npg,'vf/page_bisect.c',defs=['-DNP=%d'%npg],cuts={'vorbisfile.c':['_seek_helper','_get_next_page','_get_prev_page']},unwind=12,unwindset=[('harness',None,npg+1),('_get_next_page',None,npg+1)],object_bits=12,
             witnesses=['cross-link seek','middle page chosen' if npg>2 else 'cross-link seek','first-page special case','same link, decode machine dumped before (state after a failed seek)'],models=ENV+['abstract page table (M-frame(c))'],tags=['C08','C07','C03','C09','C12'],
             functions=['ov_pcm_seek_page','ov_pcm_total','_decode_clear'],bounds='2 links, %d pages in the target link, file < 64 KiB, <=10 page fetches'%npg,weight=4))
+    J.append(Job('page-bisect-faults','vf/page_bisect.c',defs=['-DNP=2','-DFAULTS'],cuts={'vorbisfile.c':['_seek_helper','_get_next_page','_get_prev_page']},unwind=12,unwindset=[('harness',None,3),('_get_next_page',None,3)],object_bits=12,
+        witnesses=['page seek failed on an injected fault'],models=ENV+['abstract page table (M-frame(c))','read/seek faults injected at every call of the two I/O leaves'],tags=['C12','C03'],
+        functions=['ov_pcm_seek_page','_decode_clear'],bounds='as page-bisect-2 plus an arbitrary subset of the I/O calls failing with OV_EREAD',weight=3))
     J.append(Job('pcm-exact','vf/pcm_seek.c',defs=['-DNPK=%d'%(3 if q else 5),'-DENV_BUDGET=3'],cuts={'vorbisfile.c':['ov_pcm_seek_page','_get_next_page','_fetch_and_process_packet']},unwind=(3 if q else 5)+4,object_bits=12,
         witnesses=['packets discarded in the second link','samples discarded up to the target','seek failed','recorded position already equals the target'],models=ENV+['contract of ov_pcm_seek_page (page-bisect)'],tags=['C08','C07','C03','C20','C19'],
         functions=['ov_pcm_seek','_make_decode_ready'],bounds='2 links, <=%d queued packets without granule positions, <=3 further packets fetched, block sizes 64..8192 per link'%(3 if q else 5),weight=3))
